@@ -61,7 +61,7 @@ func c12Alphabets() []*c12Sys {
 			">=3.0.0-0":      {"3.0.0-alpha", "3.0.0-beta"},
 			"4.x":            {},
 		},
-		nonRange: []string{"latest", "beta", "next", "not-a-version", "nope", "latest-1"},
+		nonRange: []string{"latest", "beta", "next", "not-a-version", "nope", "latest-1", "beta,next", "stable,latest"},
 	}
 	mvn := &c12Sys{name: "Maven", sys: resolve.Maven,
 		recs: []c12Rec{
